@@ -254,3 +254,15 @@ func (es *ElementSolution) GlobalEndTorsor() *math.Torsor {
 		es.BendingMoment[bendingIndex].Value,
 	).ProjectedToGlobal(es.RefFrame())
 }
+
+// globalExternalLoadAt returns the load externally applied to the node at the given
+// index, in global coordinates. This load goes directly to the structural node.
+func (es *ElementSolution) globalExternalLoadAt(nodeIndex int) *math.Torsor {
+	node := es.Element.NodeAt(nodeIndex)
+
+	return math.MakeTorsor(
+		node.NetLocalFx()-node.LocalLeftFx()-node.LocalRightFx(),
+		node.NetLocalFy()-node.LocalLeftFy()-node.LocalRightFy(),
+		node.NetLocalMz()-node.LocalLeftMz()-node.LocalRightMz(),
+	).ProjectedToGlobal(es.RefFrame())
+}
